@@ -44,6 +44,11 @@ def cases(tier, seed):
                 cs.append({'scen': 'ad_grad', 's': dict(base, tracked={'x': None}, api='grad', unwatch=True)})
                 if uses_y:
                     cs.append({'scen': 'ad_grad', 's': dict(base, tracked={'x': None, 'y': None}, api='grad_list', watch='list', unwatch=True)})
+    # grad_list over tensors of different order (kron), lower order first / last / in between is decided by the dict order
+    for trk in ({'y': None, 'x': None}, {'x': None, 'y': None}):
+        for api in ('grad_list', 'grad_list_nested'):
+            cs.append({'scen': 'ad_grad', 's': {'N': [2, 2], 'R': [1, 2, 1], 'N2': [3], 'R2': [1, 1], 'RA': [1, 2, 1], 'expr': 'neg_kron', 'tracked': trk, 'api': api}})
+            cs.append({'scen': 'ad_grad', 's': {'N': [2], 'R': [1, 1], 'N2': [2, 3], 'R2': [1, 2, 1], 'RA': [1, 1], 'expr': 'neg_kron', 'tracked': trk, 'api': api}})
     # objects made by factories: every core is its own variable (also when mode sizes repeat)
     for kind, N in (('ones', [2, 2]), ('ones', [3, 3, 2]), ('zeros', [2, 2]), ('zeros', [2, 3, 2]), ('eye', [2, 2]), ('eye', [2, 3])):
         cs.append({'scen': 'ad_factory', 's': {'kind': kind, 'N': N}})
